@@ -196,83 +196,86 @@ Section Valid.
       (u "amber", u "marking-definition--f88d31f6-486f-44da-b317-01333bde0b82");
       (u "red", u "marking-definition--5e57c739-391a-4eb3-b6be-7d15ca92d5ed") ].
 
-  Fixpoint jconstr (fuel : nat) (c : cls) (m : list (ustring * jvalue)) (k : constr) : bool :=
-    match fuel with
-    | O => false
-    | S f =>
-      match k with
-      | CAtLeastOne ps => existsb (fun p => jhas p m) ps
-      | CAtLeastOneDefault => match s_default_checked c with [] => true | ps => existsb (fun p => jhas p m) ps end
-      | CMutEx ps => Nat.eqb (List.length (filter (fun p => jhas p m) (s_dedup ps))) 1
-      | CDepends ps ds =>
-        forallb (fun p => forallb (fun dp =>
-          if negb (jhas p m) && jhas dp m then false
-          else match jget p m with Some (JBool false) => negb (jhas dp m) | _ => true end) ds) ps
-      | CRaiseIf q _ => match jcond q m with Some b => negb b | None => false end
-      | CWhen q body => match jcond q m with
-                        | Some true => forallb (jconstr f c m) body
-                        | Some false => true
-                        | None => false
-                        end
-      | CTlp _ =>
-        (* a TLP marking must be one of the four fixed instances (id and created) *)
-        match jget (u "definition_type") m with
-        | Some (JStr dt) =>
-          if negb (ustr_eqb dt (u "tlp")) then true else
-          match jget (u "definition") m with
-          | Some (JObj dm) =>
-            match jget (u "tlp") dm with
-            | Some (JStr color) =>
-              match assoc color tlp_table with
-              | Some id => jvalue_eqb (match jget (u "id") m with Some i => i | None => JNull end) (JStr id) &&
-                           jvalue_eqb (match jget (u "created") m with Some i => i | None => JNull end)
-                                      (JStr (u "2017-01-20T00:00:00.000Z"))
-              | None => true
-              end
-            | _ => false
+  (* one level of the co-constraint evaluator, open in its recursive call (bodies of `when` blocks) *)
+  Definition jconstr_body (rec : constr -> bool) (c : cls) (m : list (ustring * jvalue)) (k : constr) : bool :=
+    match k with
+    | CAtLeastOne ps => match ps with [] => true | _ => existsb (fun p => jhas p m) ps end
+    | CAtLeastOneDefault => match s_default_checked c with [] => true | ps => existsb (fun p => jhas p m) ps end
+    | CMutEx ps => Nat.eqb (List.length (filter (fun p => jhas p m) (s_dedup ps))) 1
+    | CDepends ps ds =>
+      forallb (fun p => forallb (fun dp =>
+        if negb (jhas p m) && jhas dp m then false
+        else match jget p m with Some (JBool false) => negb (jhas dp m) | _ => true end) ds) ps
+    | CRaiseIf q _ => match jcond q m with Some b => negb b | None => false end
+    | CWhen q body => match jcond q m with
+                      | Some true => forallb rec body
+                      | Some false => true
+                      | None => false
+                      end
+    | CTlp _ =>
+      (* a TLP marking must be one of the four fixed instances (id and created) *)
+      match jget (u "definition_type") m with
+      | Some (JStr dt) =>
+        if negb (ustr_eqb dt (u "tlp")) then true else
+        match jget (u "definition") m with
+        | Some (JObj dm) =>
+          match jget (u "tlp") dm with
+          | Some (JStr color) =>
+            match assoc color tlp_table with
+            | Some id => jvalue_eqb (match jget (u "id") m with Some i => i | None => JNull end) (JStr id) &&
+                         jvalue_eqb (match jget (u "created") m with Some i => i | None => JNull end)
+                                    (JStr (u "2017-01-20T00:00:00.000Z"))
+            | None => true
             end
           | _ => false
           end
-        | _ => true
+        | _ => false
         end
-      | CPatternValidator vv =>
-        match vv with
-        | V20 => match jget (u "pattern") m with Some (JStr p) => pattern_ok V20 p | _ => false end
-        | V21 => match jget (u "pattern_type") m with
-                 | Some (JStr pt) =>
-                   if negb (ustr_eqb pt (u "stix")) then true else
-                   match jget (u "pattern") m with
-                   | Some (JStr p) =>
-                     match jget (u "pattern_version") m with
-                     | Some (JStr pv) => if ustr_eqb pv (u "2.0") then pattern_ok V20 p else pattern_ok V21 p
-                     | _ => pattern_ok V21 p
-                     end
-                   | _ => false
+      | _ => true
+      end
+    | CPatternValidator vv =>
+      match vv with
+      | V20 => match jget (u "pattern") m with Some (JStr p) => pattern_ok V20 p | _ => false end
+      | V21 => match jget (u "pattern_type") m with
+               | Some (JStr pt) =>
+                 if negb (ustr_eqb pt (u "stix")) then true else
+                 match jget (u "pattern") m with
+                 | Some (JStr p) =>
+                   match jget (u "pattern_version") m with
+                   | Some (JStr pv) => if ustr_eqb pv (u "2.0") then pattern_ok V20 p else pattern_ok V21 p
+                   | _ => pattern_ok V21 p
                    end
                  | _ => false
                  end
-        end
-      | CLegalHashes names =>
-        match jget (u "hashes") m with
-        | Some (JObj hm) => forallb (fun kv => mem_ustr (fst kv) names) hm
-        | Some _ => false
-        | None => true
-        end
-      | CSocketOptions =>
-        match jget (u "options") m with
-        | None => true
-        | Some (JObj om) =>
-          forallb (fun kv =>
-            let key := fst kv in
-            let pre := match ufind [95%N] key O with Some i => utake (S i) key | None => [] end in
-            mem_ustr pre (map u ["SO_"; "ICMP_"; "ICMP6_"; "IP_"; "IPV6_"; "MCAST_"; "TCP_"; "IRLMP_"]%string) &&
-            match snd kv with JInt _ => true | _ => false end) om
-        | Some _ => false
-        end
-      | CProcessExt => existsb (fun p => jhas p m) (s_default_checked c) || jhas (u "extensions") m
-      | CSkipBaseCheck => true
-      | COpaque _ => false
+               | _ => false
+               end
       end
+    | CLegalHashes names =>
+      match jget (u "hashes") m with
+      | Some (JObj hm) => forallb (fun kv => mem_ustr (fst kv) names) hm
+      | Some _ => false
+      | None => true
+      end
+    | CSocketOptions =>
+      match jget (u "options") m with
+      | None => true
+      | Some (JObj om) =>
+        forallb (fun kv =>
+          let key := fst kv in
+          let pre := match ufind [95%N] key O with Some i => utake (S i) key | None => [] end in
+          mem_ustr pre (map u ["SO_"; "ICMP_"; "ICMP6_"; "IP_"; "IPV6_"; "MCAST_"; "TCP_"; "IRLMP_"]%string) &&
+          match snd kv with JInt _ => true | _ => false end) om
+      | Some _ => false
+      end
+    | CProcessExt => existsb (fun p => jhas p m) (s_default_checked c) || jhas (u "extensions") m
+    | CSkipBaseCheck => true
+    | COpaque _ => false
+    end.
+
+  Fixpoint jconstr (fuel : nat) (c : cls) (m : list (ustring * jvalue)) (k : constr) : bool :=
+    match fuel with
+    | O => false
+    | S f => jconstr_body (jconstr f c m) c m k
     end.
 
   (* required by the specification: what the table marks required, plus the properties the
@@ -288,116 +291,122 @@ Section Valid.
     end.
 
   (* ---------- values and objects ---------- *)
-  Fixpoint valid_kind (fuel : nat) (k : pkind) (j : jvalue) {struct fuel} : bool :=
-    match fuel with
-    | O => false
-    | S f =>
-      match k with
-      | KString | KPattern | KObjRef _ | KOpenVocab _ => match j with JStr _ => true | _ => false end
-      | KFixed fv _ => jvalue_eqb j (JStr fv)
-      | KId prefix vv => match j with JStr s => valid_id vv (Some prefix) s | _ => false end
-      | KInt mn mx => match j with JInt _ => number_in_bounds mn mx j | _ => false end
-      | KFloat mn mx => number_in_bounds mn mx j
-      | KBool => match j with JBool _ => true | _ => false end
-      | KTime p c => match j with JStr s => valid_timestamp p c s | _ => false end
-      | KDict vv => match j with
-                    | JObj m => negb (Nat.eqb (List.length m) 0) && forallb (fun kv => strict_dict_key vv (fst kv)) m
-                    | _ => false
-                    end
-      | KHashes names vv =>
-        match j with
-        | JObj m => negb (Nat.eqb (List.length m) 0) &&
-                    forallb (fun kv => mem_ustr (fst kv) names &&
-                                       match snd kv with JStr s => valid_hash_value (fst kv) s | _ => false end) m
-        | _ => false
-        end
-      | KBinary => match j with JStr _ => true | _ => false end
-      | KHex => match j with JStr s => strict_hex s | _ => false end
-      | KRef white generics specifics vv => match j with JStr s => valid_ref white generics specifics vv s | _ => false end
-      (* selector syntax: property names are lower-case; a later segment may also be a dictionary key (any case) *)
-      | KSelector => match j with JStr s => re_selector_exact_gen true s | _ => false end
-      | KEmbedded cid => valid_obj f cid j
-      | KEnum allowed => match j with JStr s => mem_ustr s allowed | _ => false end
-      | KObservable vv =>
-        match j with
-        | JObj m => negb (Nat.eqb (List.length m) 0) &&
-                    forallb (fun kv => match snd kv with
-                                       | JObj om =>
-                                         match jlookup (u "type") om with
-                                         | Some (JStr t) => match assoc t (robservables (s_reg vv)) with
-                                                            | Some cid => valid_obj f cid (snd kv)
-                                                            | None => false
-                                                            end
-                                         | _ => false
-                                         end
+  (* one level of the validator, open in its recursive calls (vk: values one level down, vo: objects one
+     level down, jc: co-constraints); valid_kind / valid_obj below tie the knot over a fuel *)
+  Definition valid_kind_body (vk : pkind -> jvalue -> bool) (vo : ustring -> jvalue -> bool) (k : pkind) (j : jvalue) : bool :=
+    match k with
+    | KString | KPattern | KObjRef _ | KOpenVocab _ => match j with JStr _ => true | _ => false end
+    | KFixed fv _ => jvalue_eqb j (JStr fv)
+    | KId prefix vv => match j with JStr s => valid_id vv (Some prefix) s | _ => false end
+    | KInt mn mx => match j with JInt _ => number_in_bounds mn mx j | _ => false end
+    | KFloat mn mx => number_in_bounds mn mx j
+    | KBool => match j with JBool _ => true | _ => false end
+    | KTime p c => match j with JStr s => valid_timestamp p c s | _ => false end
+    | KDict vv => match j with
+                  | JObj m => negb (Nat.eqb (List.length m) 0) && forallb (fun kv => strict_dict_key vv (fst kv)) m
+                  | _ => false
+                  end
+    | KHashes names vv =>
+      match j with
+      | JObj m => negb (Nat.eqb (List.length m) 0) &&
+                  forallb (fun kv => mem_ustr (fst kv) names &&
+                                     match snd kv with JStr s => valid_hash_value (fst kv) s | _ => false end) m
+      | _ => false
+      end
+    | KBinary => match j with JStr _ => true | _ => false end
+    | KHex => match j with JStr s => strict_hex s | _ => false end
+    | KRef white generics specifics vv => match j with JStr s => valid_ref white generics specifics vv s | _ => false end
+    (* selector syntax: property names are lower-case; a later segment may also be a dictionary key (any case) *)
+    | KSelector => match j with JStr s => re_selector_exact_gen true s | _ => false end
+    | KEmbedded cid => vo cid j
+    | KEnum allowed => match j with JStr s => mem_ustr s allowed | _ => false end
+    | KObservable vv =>
+      match j with
+      | JObj m => negb (Nat.eqb (List.length m) 0) &&
+                  forallb (fun kv => match snd kv with
+                                     | JObj om =>
+                                       match jlookup (u "type") om with
+                                       | Some (JStr t) => match assoc t (robservables (s_reg vv)) with
+                                                          | Some cid => vo cid (snd kv)
+                                                          | None => false
+                                                          end
                                        | _ => false
-                                       end) m
-        | _ => false
-        end
-      | KExtensions vv =>
-        match j with
-        | JObj m => forallb (fun kv => match assoc (fst kv) (rextensions (s_reg vv)) with
-                                       | Some cid => valid_obj f cid (snd kv)
-                                       | None => ustr_prefix (u "extension-definition--") (fst kv)
-                                                 && valid_id vv (Some (u "extension-definition--")) (fst kv)
-                                                 && no_empties (snd kv)
-                                       end) m && negb (Nat.eqb (List.length m) 0)
-        | _ => false
-        end
-      | KStixObject vv =>
-        match j with
-        | JObj om =>
-          match jlookup (u "type") om with
-          | Some (JStr t) =>
-            (* a member's own spec_version decides its tables; absent => 2.0 rules for 2.0 bundles, else by type *)
-            let mv := match jlookup (u "spec_version") om with
-                      | Some (JStr s) => if ustr_eqb s (u "2.1") then V21 else V20
-                      | _ => if jhas (u "id") om then (if s_is_sco t V21 then V21 else V20) else V20
-                      end in
-            match assoc t (robjects (s_reg mv)), assoc t (robservables (s_reg mv)) with
-            | Some cid, _ => negb (ustr_eqb t (u "bundle")) && valid_obj f cid j
-            | None, Some cid => valid_obj f cid j
-            | None, None => false
-            end
-          | _ => false
+                                       end
+                                     | _ => false
+                                     end) m
+      | _ => false
+      end
+    | KExtensions vv =>
+      match j with
+      | JObj m => forallb (fun kv => match assoc (fst kv) (rextensions (s_reg vv)) with
+                                     | Some cid => vo cid (snd kv)
+                                     | None => ustr_prefix (u "extension-definition--") (fst kv)
+                                               && valid_id vv (Some (u "extension-definition--")) (fst kv)
+                                               && no_empties (snd kv)
+                                     end) m && negb (Nat.eqb (List.length m) 0)
+      | _ => false
+      end
+    | KStixObject vv =>
+      match j with
+      | JObj om =>
+        match jlookup (u "type") om with
+        | Some (JStr t) =>
+          (* a member's own spec_version decides its tables; absent => 2.0 rules for 2.0 bundles, else by type *)
+          let mv := match jlookup (u "spec_version") om with
+                    | Some (JStr s) => if ustr_eqb s (u "2.1") then V21 else V20
+                    | _ => if jhas (u "id") om then (if s_is_sco t V21 then V21 else V20) else V20
+                    end in
+          match assoc t (robjects (s_reg mv)), assoc t (robservables (s_reg mv)) with
+          | Some cid, _ => negb (ustr_eqb t (u "bundle")) && vo cid j
+          | None, Some cid => vo cid j
+          | None, None => false
           end
         | _ => false
         end
-      | KMarking vv =>
-        (* the `definition` of a marking-definition: an object of a registered marking class *)
-        match j with
-        | JObj _ => existsb (fun kc => valid_obj f (snd kc) j) (rmarkings (s_reg vv))
-        | _ => false
-        end
-      | KList k' => match j with
-                    | JArr l => negb (Nat.eqb (List.length l) 0) && forallb (valid_kind f k') l
-                    | _ => false
-                    end
-      | KListOf cid => match j with
-                       | JArr l => negb (Nat.eqb (List.length l) 0) && forallb (valid_obj f cid) l
-                       | _ => false
-                       end
-      | KAny => no_empties j
+      | _ => false
       end
-    end
+    | KMarking vv =>
+      (* the `definition` of a marking-definition: an object of a registered marking class *)
+      match j with
+      | JObj _ => existsb (fun kc => vo (snd kc) j) (rmarkings (s_reg vv))
+      | _ => false
+      end
+    | KList k' => match j with
+                  | JArr l => negb (Nat.eqb (List.length l) 0) && forallb (vk k') l
+                  | _ => false
+                  end
+    | KListOf cid => match j with
+                     | JArr l => negb (Nat.eqb (List.length l) 0) && forallb (vo cid) l
+                     | _ => false
+                     end
+    | KAny => no_empties j
+    end.
 
+  Definition valid_obj_body (vk : pkind -> jvalue -> bool) (jc : cls -> list (ustring * jvalue) -> constr -> bool)
+             (cid : ustring) (j : jvalue) : bool :=
+    match find_class (wclasses sw) cid, j with
+    | Some c, JObj m =>
+      (* every member is a specified property with a valid value; nothing null or empty *)
+      forallb (fun kv => match find (fun s => ustr_eqb (sname s) (fst kv)) (cslots c) with
+                         | Some s => vk (skind s) (snd kv)
+                         | None => false
+                         end) m &&
+      (* required properties, including those the specification defaults (type, id, created, ...) *)
+      forallb (fun s => negb (spec_required c s) || match jlookup (sname s) m with Some _ => true | None => false end) (cslots c) &&
+      (* co-constraints; extensions need at least one property *)
+      forallb (jc c m) ((match cfamily c with FExt => [CAtLeastOneDefault] | _ => [] end) ++ ccons c)
+    | _, _ => false
+    end.
+
+  Fixpoint valid_kind (fuel : nat) (k : pkind) (j : jvalue) {struct fuel} : bool :=
+    match fuel with
+    | O => false
+    | S f => valid_kind_body (valid_kind f) (valid_obj f) k j
+    end
   with valid_obj (fuel : nat) (cid : ustring) (j : jvalue) {struct fuel} : bool :=
     match fuel with
     | O => false
-    | S f =>
-      match find_class (wclasses sw) cid, j with
-      | Some c, JObj m =>
-        (* every member is a specified property with a valid value; nothing null or empty *)
-        forallb (fun kv => match find (fun s => ustr_eqb (sname s) (fst kv)) (cslots c) with
-                           | Some s => valid_kind f (skind s) (snd kv)
-                           | None => false
-                           end) m &&
-        (* required properties, including those the specification defaults (type, id, created, ...) *)
-        forallb (fun s => negb (spec_required c s) || match jlookup (sname s) m with Some _ => true | None => false end) (cslots c) &&
-        (* co-constraints; extensions need at least one property *)
-        forallb (jconstr (S f) c m) ((match cfamily c with FExt => [CAtLeastOneDefault] | _ => [] end) ++ ccons c)
-      | _, _ => false
-      end
+    | S f => valid_obj_body (valid_kind f) (jconstr (S f)) cid j
     end.
 
   (* why an object is not valid, one level deep (for messages; the verdict is valid_obj) *)
